@@ -103,7 +103,18 @@ def run(ctx):
             two = [ctx.rng.random() < 0.5 for _ in range(m)]; alts = ["two-sided" if t_ else "greater" for t_ in two]
         kinds = [ctx.rng.choice(["np", "float", "int", "f32", "i64"]) for _ in range(m)]
         ip = ctx.rng.random() < 0.3
+        dup = None
+        if m >= 2 and ctx.rng.random() < 0.2:      # the same test function listed twice (e.g. once one-sided and once two-sided)
+            c1, c2 = ctx.rng.sample(range(m), 2); dup = (c1, c2); ctx.count("same-callable-listed-twice")
+            tv = [list(r_) for r_ in tv]; ts = list(ts)
+            for r_ in tv:
+                r_[c2] = r_[c1]
+            ts[c2] = ts[c1]; kinds[c2] = kinds[c1]
+            if isinstance(alts, list) and ctx.rng.random() < 0.8:
+                two[c2] = not two[c1]; alts = ["two-sided" if t_ else "greater" for t_ in two]
         e, tests, st = scripted_experiment(tv, ts, kinds)
+        if dup:
+            tests[dup[1]] = tests[dup[0]]
         tests_before = list(tests); alts_before = list(alts) if isinstance(alts, list) else alts
         r = guarded(npc.westfall_young, e, tests, method=method, alternatives=alts, reps=reps, in_place=ip)
         if len(tests) != len(tests_before) or any(a_ is not b_ for a_, b_ in zip(tests, tests_before)) or (isinstance(alts, list) and alts != alts_before):
